@@ -25,15 +25,15 @@ func c12(c *vc.Ctx) {
 	maxLen := 4
 	len5 := vc.Pick(c, 0, 5) // thorough: length-5 sequences over the reduced alphabet c12Alphabet5
 	depth := 2
-	coreOnly := vc.Pick(c, true, false)
+	subs := vc.Pick(c, 0, 1)
 	unclosedLen := vc.Pick(c, 2, 3)
 	stride := uint32(vc.Pick(c, 8000, 60000))
-	progs := c12Programs(depth, coreOnly)
+	progs := c12Programs(depth, subs)
 	c.Rule = fmt.Sprintf("(a) every token sequence of length <= %d over the %d-token shared core alphabet %q joined by single spaces (a here-document token gets its body after the next newline token or at the end)%s; "+
-		"(b) the %d programs of the token-level shared core grammar (c12_gen.go: %d templates, %d word atoms, nesting depth %d, nested statements restricted to the core subset: %v) and every single-token mutation of each (delete token i, duplicate it, swap i/i+1, insert each alphabet token at every position), deduplicated by text; "+
+		"(b) the %d programs of the token-level shared core grammar (c12_gen.go: %d templates, %d word atoms, nesting depth %d, nested statements: %s) and every single-token mutation of each (delete token i, duplicate it, swap i/i+1, insert each alphabet token at every position), deduplicated by text; "+
 		"(c) every sequence of length <= %d containing the here-document token, rendered without any here-document body (unclosed here-documents; one real shell process per case); "+
 		"each program is judged twice: Parse(Variant(LangBash)) against bash -n and Parse(Variant(LangPOSIX)) against dash -n; an evaluation is one (program, language) pair",
-		maxLen, len(c12Alphabet), c12Alphabet, map[bool]string{false: "", true: fmt.Sprintf(", and every sequence of length 5 over the %d-token sub-alphabet %q", len(c12Alphabet5), c12Alphabet5)}[len5 == 5], len(progs), len(c12Templates), len(c12Words), depth, coreOnly, unclosedLen)
+		maxLen, len(c12Alphabet), c12Alphabet, map[bool]string{false: "", true: fmt.Sprintf(", and every sequence of length 5 over the %d-token sub-alphabet %q", len(c12Alphabet5), c12Alphabet5)}[len5 == 5], len(progs), len(c12Templates), len(c12Words), depth, []string{"the core subset c12CoreSubs", "every depth-1 program with default words", "every depth-1 program"}[subs], unclosedLen)
 	c.Assumptions = []string{
 		"bash 5.2.15 and the installed dash are the reference shells; acceptance by a shell is judged as the repository's confirmParse does: `<shell> -n` with the program on stdin, rejected iff non-zero exit status or a non-empty stderr line without \"warning:\"",
 		"throughput: one long-lived process per shell and batch parses each case without executing it (eval of `return 0; __g() { CASE\\n}` and of `return 0; if false; then CASE\\nfi`; accepted iff both parse); this in-process verdict is validated against real `<shell> -n` processes: every in-process ACCEPT is re-judged by `<shell> -n` on the concatenation of the accepted cases of the batch (bisecting on rejection), every in-process REJECT whose text hash falls on a deterministic stride is re-judged by its own process, and every divergence from the parser is re-judged by its own process before it is reported (counters wrapper_*); remaining in-process REJECT verdicts that agree with the parser are trusted on the strength of that validation",
